@@ -251,8 +251,9 @@ TRUSTED_BASE = [
     "Coq 8.16.1 kernel + coqc; vm_compute (no native_compute); coqchk in the thorough tier",
     "Flocq 4 (binary64 model) and, through its correctness lemmas over R, the standard-library axioms "
     "ClassicalDedekindReals.sig_forall_dec, ClassicalDedekindReals.sig_not_dec, FunctionalExtensionality.functional_extensionality_dep (only under the F64 theorems)",
-    "hv/translate (python-ast -> Gallina translator and its binding tables); Python/numpy semantics of the translated subset",
-    "extraction with ExtrOcamlBasic only (bool, option, unit, list, prod, sumbool, sumor; andb/orb inlined), Z/positive/nat kept inductive; the OCaml driver's parsing and printing",
+    "hv/translate (python-ast -> Gallina translator and its binding tables); Python/numpy semantics of the translated subset; for the driver front end (tree.py and the "
+    "deme run_metaepoch loops): the table saying which python construct is which primitive effect of coq/Model/DriverPrim.v, and the list of calls taken to touch no modelled state",
+    "no OCaml extraction is used (no Extract Constant / Extract Inductive directives): every model evaluation is vm_compute inside coqc on generated cases_*.v files; the parsing of coqc's printed lists (hv/coqrun.py)",
     "the harness: recorders installed by patching from outside /repo, oracle derivation, abs(tree), monitors",
 ]
 
